@@ -249,7 +249,9 @@ theorem step_token {cs t rest nl} (h : step cs = .token t rest nl) : Consumes cs
           · cases h; exact mNumber_consumes hm
         · split at h
           · rename_i s ds r hm
-            cases h; exact mInt_consumes hm
+            split at h
+            · cases h
+            · cases h; exact mInt_consumes hm
           · split at h
             · rename_i ds r hm
               cases h; exact mBinInt_consumes hm
@@ -276,7 +278,7 @@ theorem step_skip {cs rest nl} (h : step cs = .skip rest nl) :
         · simp only at h
           split at h <;> cases h
         · split at h
-          · cases h
+          · split at h <;> cases h
           · split at h
             · cases h
             · split at h
